@@ -12,6 +12,21 @@ PRE = ("From Coq Require Import ZArith NArith List PrimFloat.\nImport ListNotati
        "From RD Require Import Base Model.Dataset Model.Default Model.DecayI Model.DecayCheck.\n")
 
 
+SYNTH_DIR = __import__("os").path.join(C.SCRATCH, "synth")
+
+
+def npz_path(ds=None):
+    import os
+    return os.path.join(SYNTH_DIR, "decay_data.npz") if ds == "synth" else \
+        os.path.join(C.REPO, "radioactivedecay/icrp107_ame2020_nubase2020/decay_data.npz")
+
+
+def names_of(ds=None):
+    import numpy as np
+    d = np.load(npz_path(ds), allow_pickle=True)
+    return [str(x) for x in d["nuclides"]], [float(h[0]) == math.inf for h in d["hldata"]]
+
+
 def qlit(pq):
     p, q = int(pq[0]), int(pq[1])
     return f"(QL ({p})%Z {q}%positive)"
@@ -25,7 +40,7 @@ def term(c, r, idx, with_cum=True):
     return f"(DC {n0} {qlit(r['t'])} {out} {cum})"
 
 
-def gen_cases(rng, names, stable, n_single, n_mixed, cls, cum_every=3, tmax=30, only=None, progeny=None):
+def gen_cases(rng, names, stable, n_single, n_mixed, cls, cum_every=3, tmax=30, only=None, progeny=None, ds=None):
     radio = [n for n, s in zip(names, stable) if not s]
     radio_set = set(radio)
     cases = []
@@ -36,7 +51,7 @@ def gen_cases(rng, names, stable, n_single, n_mixed, cls, cum_every=3, tmax=30, 
                       "t": float(10 ** rng.uniform(-6, tmax)).hex(), "tunit": "s"})
     for _ in range(n_mixed):
         k = rng.randint(1, 12)
-        chosen = rng.sample(names, k)
+        chosen = rng.sample(names, min(k, len(names)))
         unit = rng.choice(["num", "num", "mol", "g", "kg", "Bq", "Ci"])
         if unit in ("Bq", "Ci") :
             chosen = [c for c in chosen if c in radio] or [rng.choice(radio)]
@@ -49,9 +64,11 @@ def gen_cases(rng, names, stable, n_single, n_mixed, cls, cum_every=3, tmax=30, 
     # tail cases: the decay time is chosen so that the parent's remaining amount N0 * 2^(-t/T) has a target
     # magnitude spread uniformly (in log) over the whole range of normal doubles
     import numpy as np, os
-    dd = np.load(os.path.join(C.REPO, "radioactivedecay/icrp107_ame2020_nubase2020/decay_data.npz"), allow_pickle=True)
+    dd = np.load(npz_path(ds), allow_pickle=True)
     hl = {str(n): h for n, h in zip(dd["nuclides"], dd["hldata"])}
-    secs = {"s": 1.0, "m": 60.0, "h": 3600.0, "d": 86400.0, "y": 86400.0 * 365.2422, "ms": 1e-3, "\u03bcs": 1e-6}
+    yr = 86400.0 * float(dd["year_conv"])
+    secs = {"s": 1.0, "m": 60.0, "h": 3600.0, "d": 86400.0, "y": yr, "ms": 1e-3, "\u03bcs": 1e-6, "ns": 1e-9, "ps": 1e-12,
+            "ky": yr * 1e3, "My": yr * 1e6, "Gy": yr * 1e9}
     ntail = max(2, (n_single if only is None else len(only)) // 6)
     for _ in range(ntail):
         n = rng.choice(radio)
@@ -108,6 +125,9 @@ def gen_cases(rng, names, stable, n_single, n_mixed, cls, cum_every=3, tmax=30, 
                 continue
             cases.append({"cls": cls, "contents": {x: float(round(10 ** rng.uniform(5, 20), 3)).hex() for x in members}, "unit": "num",
                           "t": float(round(10 ** rng.uniform(0, 9), 3)).hex(), "tunit": "s", "kind": "closed"})
+    if ds:
+        for c in cases:
+            c["ds"] = ds
     for i, c in enumerate(cases):
         c["cum"] = (i % cum_every == 0) or c.get("kind") in ("history", "closed")
         c["zero"] = (i % 10 == 0) and "pre" not in c
@@ -125,10 +145,10 @@ def closure_of(names, progeny, start):
     return seen
 
 
-def decay_stream(rng, cases, checker, tag, streams, viol, samples, what, shard=24, py_pred=None):
+def decay_stream(rng, cases, checker, tag, streams, viol, samples, what, shard=24, py_pred=None, ds=None, pre=None):
     import numpy as np
     import os
-    d = np.load(os.path.join(C.REPO, "radioactivedecay/icrp107_ame2020_nubase2020/decay_data.npz"), allow_pickle=True)
+    d = np.load(npz_path(ds), allow_pickle=True)
     names = [str(x) for x in d["nuclides"]]
     idx = {n: i for i, n in enumerate(names)}
     progeny = {n: [str(x) for x in pl] for n, pl in zip(names, d["progeny"])}
@@ -168,7 +188,7 @@ def decay_stream(rng, cases, checker, tag, streams, viol, samples, what, shard=2
             continue
         terms.append(term(c, r, idx))
         tidx.append(k)
-    bad, errs = Q.run_cases(tag, PRE, "dcase", terms, checker, shard=shard, timeout=3000)
+    bad, errs = Q.run_cases(tag, pre or PRE, "dcase", terms, checker, shard=shard, timeout=3000)
     streams[tag] = {"cases": len(cases), "evaluated_in_coq": len(terms), "outside_bound": len(bad),
                     "impl_property_failures": len(bad_prop), "coq_errors": len(errs), "what": what,
                     "chain_sizes": {"max": max((len(r.get("out", {})) for r in impl), default=0)}}
